@@ -24,6 +24,10 @@ class StreamNode(ConfigList):
         super().__init__(builder.stages, **kwargs)
         self.builder = builder
 
+    def _get_child_kwargs(self, child=None):
+        # a stream only groups independent documents, it must not push its own merge flags into them
+        return {}
+
     @property
     def stages(self):
         return self.builder.stages
